@@ -88,6 +88,7 @@ type c09Ctl struct {
 
 type c09Eval struct {
 	info  *types.Info
+	lits  map[types.Object]*ast.FuncLit // closures held in locals
 	env   map[types.Object]c09Value
 	undec string
 	steps int
@@ -231,6 +232,9 @@ func (ev *c09Eval) expr(e ast.Expr) c09Value {
 		if fn := Callee(ev.info, x); fn != nil && fn.Pkg() != nil && fn.Pkg().Path() == "slices" && fn.Name() == "ContainsFunc" && len(x.Args) == 2 {
 			l := ev.expr(x.Args[0])
 			lit, isLit := x.Args[1].(*ast.FuncLit)
+			if id, isID := ast.Unparen(x.Args[1]).(*ast.Ident); isID && !isLit && ev.lits != nil {
+				lit, isLit = ev.lits[ev.info.Uses[id]], ev.lits[ev.info.Uses[id]] != nil
+			}
 			if l.kind == 'l' && isLit && len(lit.Type.Params.List) == 1 && len(lit.Type.Params.List[0].Names) == 1 {
 				po := ev.info.Defs[lit.Type.Params.List[0].Names[0]]
 				res := false
@@ -316,6 +320,12 @@ func (ev *c09Eval) stmt(st ast.Stmt, label string) c09Ctl {
 					}
 					if o != nil {
 						ev.env[o] = vals[i]
+						if lit, isLit := ast.Unparen(x.Rhs[i]).(*ast.FuncLit); isLit {
+							if ev.lits == nil {
+								ev.lits = map[types.Object]*ast.FuncLit{}
+							}
+							ev.lits[o] = lit
+						}
 					}
 				}
 			}
